@@ -400,6 +400,38 @@ func edgeDominated(d *ssa.BasicBlock, succ int, b *ssa.BasicBlock) bool {
 // so extracting a guard into a predicate method does not blind the rules.
 func dominatingConds(b *ssa.BasicBlock) []condEdge {
 	out := dominatingCondsRaw(b)
+	// a condition that is a phi of booleans (e.g. `ok := a && b` computed earlier, or an inlined predicate):
+	// when it is known true and all but one incoming value are the constant false, the facts of that one edge hold
+	for i := 0; i < len(out) && i < 64; i++ {
+		ce := out[i]
+		phi, ok := ce.cond.(*ssa.Phi)
+		if !ok || ce.subst != nil {
+			continue
+		}
+		var srcV ssa.Value
+		var srcB *ssa.BasicBlock
+		cnt := 0
+		for j, e := range phi.Edges {
+			if k, isC := constBool(e); isC && k != ce.taken {
+				continue
+			}
+			cnt++
+			srcV, srcB = e, phi.Block().Preds[j]
+		}
+		if cnt != 1 {
+			continue
+		}
+		out = append(out, dominatingCondsRaw(srcB)...)
+		// the predecessor's own branch towards the phi block
+		if len(srcB.Instrs) > 0 {
+			if ifi, isIf := srcB.Instrs[len(srcB.Instrs)-1].(*ssa.If); isIf {
+				out = append(out, condEdge{cond: ifi.Cond, taken: srcB.Succs[0] == phi.Block(), ifIn: ifi})
+			}
+		}
+		if _, isC := constBool(srcV); !isC {
+			out = append(out, condEdge{cond: srcV, taken: ce.taken})
+		}
+	}
 	n := len(out)
 	for i := 0; i < n; i++ {
 		ce := out[i]
